@@ -5,6 +5,8 @@ go 1.23.0
 require (
 	github.com/goreleaser/fileglob v1.3.0
 	github.com/goreleaser/nfpm/v2 v2.0.0
+	github.com/klauspost/compress v1.18.0
+	github.com/ulikunitz/xz v0.5.12
 )
 
 require github.com/gobwas/glob v0.2.3 // indirect
